@@ -606,6 +606,28 @@ def check_c12(c, result):
     c.samples += [tq[0][1], tq[3][1]]
 
 
+def console_compare(c, result, pid, items, res, what):
+    """items: [(qid, one-line text, k)] fed to ONE console session; each answer must be the stand-alone answer res[qid]"""
+    items = [(qid, t, k) for qid, t, k in items if '\n' not in t and '\r' not in t and res.get(qid, ('', ''))[0] == 'ok']
+    if not items:
+        return
+    data = ('\n'.join(t for _, t, _ in items) + '\n:quit\n').encode('utf-8')
+    answered = console_run(c, data, 'one', transcript=True)
+    c.stats['%s_console_lines' % pid.lower()] += len(items)
+    if answered == -1 or len(answered) != len(items):
+        result.violations.append(payload_replay(pid, 'the console answered %s of %d valid queries of one session (%s)' % (len(answered) if answered != -1 else 'none', len(items), what),
+                                                [t for _, t, _ in items][:12], 'pipe the lines (then :quit) into `pathfinder query --stdin --project D --output json`', c.files))
+        return
+    for i_, ((qid, t, k), ans) in enumerate(zip(items, answered)):
+        doc = next((l for l in ans.split('\n') if l.startswith('{"output"')), None)
+        want = tuples_of(res[qid][1], k)
+        got = tuples_of(doc, k) if doc is not None else None
+        if got != want:
+            result.violations.append(payload_replay(pid, 'in a console session a query is answered differently from the same query given alone (%s)' % what, [x for _, x, _ in items[max(0, i_ - 6):i_ + 1]],
+                                                    'line %d of the session; alone: %d results; in the session: %s' % (i_ + 1, sum(want.values()), '%d results' % sum(got.values()) if got is not None else ans[:200]), c.files))
+            return
+
+
 # ------------------------------------------------------------------ C13 / C14
 def check_c13(c, result):
     qs = [q for _, q in gen_queries(c, N[c.tier]['C13'] * 2, npreds=None) if q['preds'] and querygen.has_call(q['where'])][:N[c.tier]['C13']]
@@ -754,6 +776,11 @@ def check_c13(c, result):
                 result.violations.append(payload_replay('C13', 'results change under the transformation "%s"' % name, [texts[ids['orig']], texts[qid]],
                                                         'original: %d results; variant: %s %s' % (sum(b.values()), oc, sum(tuples_of(payload, k).values()) if oc == 'ok' else payload[:100]), c.files))
                 break
+    # the groups once more inside ONE console session: their members declare predicates of the same names over
+    # different kinds, with the same and with different numbers of parameters -- a declaration must not outlive its query
+    kof = {qid: k for ids, k in groups for qid in ids.values()}
+    nested = [(qid, t, kof[qid]) for qid, t in tq if qid in kof and qid.startswith('n')]
+    console_compare(c, result, 'C13', nested[:400 if c.tier == 'quick' else 4000], res, 'predicate declarations of the same names in earlier lines')
     c.samples += [tq[0][1], tq[1][1]] if tq else []
     if c.tier == 'thorough':
         import coqcross
@@ -796,6 +823,30 @@ def check_c14(c, result):
                 break
         if base[0] == 'ok' and sum(tuples_of(base[1], k).values()):
             c.stats['c14_groups_nonempty'] += 1
+    # the same layouts typed into the CONSOLE, several in one session (those that fit on one line): every line is
+    # answered with what the layout answers stand-alone
+    sess = []
+    for ids, k in groups[:14 if c.tier == 'quick' else 80]:
+        for vid in ids:
+            if '\n' not in texts[vid] and res.get(vid, ('', ''))[0] == 'ok':
+                sess.append((vid, k))
+    if sess:
+        data = ('\n'.join(texts[vid] for vid, _ in sess) + '\n:quit\n').encode('utf-8')
+        answered = console_run(c, data, 'one', transcript=True)
+        c.stats['c14_console_lines'] = len(sess)
+        if answered == -1 or len(answered) != len(sess):
+            result.violations.append(payload_replay('C14', 'the console answered %s of %d one-line layouts of valid queries' % (len(answered) if answered != -1 else 'none', len(sess)),
+                                                    [texts[vid] for vid, _ in sess][:12], 'pipe the lines (then :quit) into `pathfinder query --stdin --project D --output json`', c.files))
+        else:
+            for (vid, k), ans in zip(sess, answered):
+                doc = next((l for l in ans.split('\n') if l.startswith('{"output"')), None)
+                want = tuples_of(res[vid][1], k)
+                got = tuples_of(doc, k) if doc is not None else None
+                if got != want:
+                    i_ = [v for v, _ in sess].index(vid)
+                    result.violations.append(payload_replay('C14', 'in the console a layout of a query is answered differently from the same text given with --query', [texts[v] for v, _ in sess[max(0, i_ - 2):i_ + 1]],
+                                                            'stand-alone: %d results; console: %s' % (sum(want.values()), '%d results' % sum(got.values()) if got is not None else ans[:200]), c.files))
+                    break
     # rule files re-wrapped and re-indented (a line break at every token boundary in turn, every token on a line of
     # its own, CRLF): `query --query-file` and `ci` must report what the one-line query reports.  The conditions carry
     # arithmetic, so that wrapped lines begin with `*`, `/`, `-`, `!`, `(`, `.`
@@ -1410,6 +1461,11 @@ def check_c10_c11(c, result):
                     cases.append(' '.join(sent[:i] + sent[i + 1:]))
     cases = list(dict.fromkeys(cases))
     tq = [('k%d' % i, t) for i, t in enumerate(cases)]
+    # ... and some of them AGAIN at the end of the same process (hundreds of other inputs in between), byte for byte:
+    # those that are not white-space-normal first.  The answer to an input does not depend on what was parsed before
+    again = [t for t in cases if ('\n' in t or '\t' in t or '  ' in t) and len(t) < 2000][:70] + cases[:50]
+    tq += [('again%d' % i, t) for i, t in enumerate(again)]
+    c.stats['inputs_parsed_again'] = len(again)
     if pid == 'C10':
         # every accessor of every kind as a SELECT item and inside WHERE, in BOTH output modes (the text
         # report formats values itself), on a program with the incomplete forms of every statement
